@@ -189,3 +189,60 @@ def dropElement (s : St) (which : Which) : St × Option Bytes :=
             (unlinkAt s1 t, some e.data)
 
 end Strophe.SendQueue
+
+namespace Strophe.SendQueue
+
+/-! ### operations as data (for theorems over arbitrary histories) -/
+
+inductive Op
+  | send (owner : Owner) (data : Bytes)
+  | run (sched : List Accept)
+  | drop (w : Which)
+  | setSm (b : Bool)
+  | disc
+  deriving Repr
+
+inductive Out
+  | none
+  | wire (b : Bytes)
+  | dropped (r : Option Bytes)
+  deriving Repr, DecidableEq
+
+def step (s : St) : Op → St × Out
+  | .send o d => (sendRaw s o d, .none)
+  | .run sched => let (s', w) := runOnce s sched; (s', .wire w)
+  | .drop w => let (s', r) := dropElement s w; (s', .dropped r)
+  | .setSm b => ({ s with smEnabled := b }, .none)
+  | .disc => (disconnect s, .none)
+
+/-- bytes still to be written, in queue order -/
+def pending (q : List Elem) : Bytes := (q.map Elem.rest).flatten
+
+/-- History with a ghost record of what an outside observer (the application handing elements in
+    and getting dropped texts back, plus the peer reading the wire) knows must still arrive:
+    `ghost` holds, per element ever queued and in queue order, the part of its text that was not
+    taken back by a drop.  A drop on a live connection takes the whole text back (nothing of it
+    was written); after a disconnect only the unwritten rest can be taken back. -/
+structure Hist where
+  st : St := {}
+  wire : Bytes := []
+  ghost : List (Nat × Bytes) := []
+
+def stepH (h : Hist) (op : Op) : Hist :=
+  let (s', out) := step h.st op
+  let added := (s'.queue.filter fun e => h.st.nextUid ≤ e.uid).map fun e => (e.uid, e.data)
+  let removed := h.st.queue.filter fun e => !(s'.queue.any fun e' => e'.uid = e.uid) &&
+                                            !(s'.smQueue.any fun e' => e'.uid = e.uid)
+  match op, out with
+  | .drop _, _ =>
+    { st := s', wire := h.wire,
+      ghost := h.ghost.map fun (u, t) =>
+        match removed.find? (fun e => e.uid = u) with
+        | some e => (u, t.take e.written)
+        | none => (u, t) }
+  | _, .wire w => { st := s', wire := h.wire ++ w, ghost := h.ghost ++ added }
+  | _, _ => { st := s', wire := h.wire, ghost := h.ghost ++ added }
+
+def runH (ops : List Op) : Hist := ops.foldl stepH {}
+
+end Strophe.SendQueue
